@@ -160,6 +160,14 @@ def gen(rng, n, tier):
         else:
             k = rng.choice(["valid", "unsorted", "overlap", "zero", "shape", "edges_valid", "edges_unsorted", "edges_equal"])
             s = rng.choice(SCALES)
+            if k.startswith("edges") and rng.random() < 0.35:
+                # small whole numbers handed over in a narrow or unsigned integer array (differences of unsigned numbers never go negative)
+                e = sorted(rng.sample(range(0, 120), rng.randint(3, 6)))
+                if k == "edges_unsorted": j = rng.randrange(len(e) - 1); e[j], e[j + 1] = e[j + 1], e[j]
+                if k == "edges_equal": j = rng.randrange(len(e) - 1); e[j + 1] = e[j]
+                yield [["bucket", "refuse/" + k + "/intarray"], ["kind", "refuse"], ["edges", [Fr(x) for x in e]], ["ctor", rng.choice(["NumpyBinning", "StaticBinning", "as_binning", "static_binning"])],
+                       ["array_dtype", rng.choice(["uint8", "uint16", "uint32", "uint64", "int8", "int16"])]]
+                continue
             if k.startswith("edges"):
                 p = gen_pairs(rng, rng.randint(2, 5), scale=s); e = [p[0][0]] + [b for a, b in p]
                 if k == "edges_unsorted": j = rng.randrange(len(e) - 1); e[j], e[j + 1] = e[j + 1], e[j]
@@ -325,6 +333,7 @@ def impl(case):
             if "pairs" in d: arg = _arr(d["pairs"])
             elif "edges" in d: arg = _arr(d["edges"])
             else: arg = {"n3": np.array([[0., 1, 2], [2, 3, 4]]), "3d": np.zeros((2, 2, 2)) + np.arange(2), "scalar": np.float64(3.0)}[d["shape"]]
+            if "array_dtype" in d: arg = arg.astype(d["array_dtype"])
             try:
                 f = {"StaticBinning": lambda: B.StaticBinning(arg), "NumpyBinning": lambda: B.NumpyBinning(arg), "as_binning": lambda: B.as_binning(arg),
                      "static_binning": lambda: B.static_binning(None, bins=arg)}[d["ctor"]]
